@@ -8,19 +8,31 @@ step of the transition system followed by resuming woken consumers until nobody 
   `new q|async|mux <cap>` | `new mq <ctrlCap> <reqCap>` | `new syncq` | `new priq <cap>` → `ok`
   list queues: `pop` `popany` (a NEW blocking consumer) → `ret:<r>` | `parked`
                `add x` `prior x` `addc x` `priorc x` `close` `tryclose` `tryclear` `trypop` → `<result>`
-               `atomic <ev> ; <ev> …` (ev ∈ add/prior/addc/priorc/close/tryclose): the events back to back, no woken
-               consumer resuming in between → `<r1>;<r2>…`
+               `atomic <ev> ; <ev> …` (ev ∈ add/prior/addc/priorc/close/tryclose): a burst of producer events → `<r1>;<r2>…`
   priq:        `push x p` `pop` `len` → `<result>`;  `recv` → `got` | `empty`;  `waitlen` → `0` | `1`;
                `consume` (a NEW consumer: receive from WaitCh, then Pop) → `ret:<r>` | `parked`
 every answer is followed by ` ret=[<sorted results of the OTHER consumers that returned during the event>] parked=<n>`.
-Which waiter a Signal wakes / which woken consumer wins is not observable in this output (multisets and counts).
+Scheduling is never decided by the oracle: for every line it explores ALL runs of the transition system — every choice
+a Signal has, every order in which woken consumers resume, and for a burst every placement of those resumes before,
+between and after its events — and answers with the single outcome or the set `{a|b|…}` of outcomes; it carries the
+set of states those runs can end in to the next line. Consumers are anonymous (counts per call kind).
 Configuration: `Nv.Gen.C13.cfg` (wake primitives) and `Nv.Gen.C12.cfg` (shapes), both regenerated from the source.
 -/
 open Nv Nv.C12 Nv.C13
 
+/-- oracle state of a list queue with anonymous consumers: the queue and how many Pop / PopAnyway consumers are parked
+    or woken (thread identities are not observable) -/
+structure AS where
+  q : LQ
+  pp : Nat      -- parked in Pop
+  pa : Nat      -- parked in PopAnyway
+  wp : Nat      -- woken, called Pop
+  wa : Nat      -- woken, called PopAnyway
+deriving DecidableEq
+
 inductive St
   | none
-  | lq (P : Par) (s : CS) (next : Nat)
+  | lq (P : Par) (ss : List AS)        -- the SET of states the transition system allows after the lines so far
   | pq (s : PS) (waiters : Nat)
 
 def showOut : Out → String
@@ -41,20 +53,22 @@ def parseKind (s : String) : Option Kind :=
 
 def mkPar (k : Kind) : Par := ⟨k, Nv.Gen.C12.cfg.shape k, Nv.Gen.C12.cfg.syncq, Nv.Gen.C13.cfg.wake k⟩
 
-def firstParked (s : CS) : Tid := match s.parked with | e :: _ => e.1 | [] => 0
+/-- a concrete LTS state for an anonymous one: parked threads 1…, woken threads 1001…, nothing done yet -/
+def concretize (a : AS) : CS :=
+  ⟨a.q,
+   (List.range a.pp).map (fun i => (i + 1, false)) ++ (List.range a.pa).map (fun i => (a.pp + i + 1, true)),
+   (List.range a.wp).map (fun i => (1001 + i, false)) ++ (List.range a.wa).map (fun i => (1001 + a.wp + i, true)),
+   [], []⟩
 
-/-- run one producer-side event: step, then settle; answer with the results of consumers that returned -/
-def lqEvent (P : Par) (s : CS) (next : Nat) (a : Act) (res : String) : St × String :=
-  match Nv.C13.step P s a with
-  | none => (.lq P s next, "bad-op")
-  | some s1 =>
-    let s2 := settle P s1.woken.length s1
-    let newDone := s2.done.take (s2.done.length - s.done.length)
-    (.lq P s2 next, res ++ suffix (newDone.map (fun d => showOut d.2)) s2.parked.length)
+def countKind (k : Bool) (l : List (Tid × Bool)) : Nat := (l.filter (fun e => e.2 == k)).length
 
-/-- a producer-side event: its LTS action (Signal's choice = first parked thread) and its result text -/
-def producer (P : Par) (s : CS) (ws : List String) : Option (Act × String) :=
-  let w := firstParked s
+def abstractS (s : CS) : AS :=
+  ⟨s.q, countKind false s.parked, countKind true s.parked, countKind false s.woken, countKind true s.woken⟩
+
+def firstOfKind (k : Bool) (l : List (Tid × Bool)) : Option Tid := (l.find? (fun e => e.2 == k)).map (·.1)
+
+/-- a producer-side event: its LTS action (Signal's choice `w` given) and its result text -/
+def producer (P : Par) (s : CS) (w : Tid) (ws : List String) : Option (Act × String) :=
   match ws with
   | ["add", x] => (parseNat? x).map fun x =>
       (.add x w, if P.kind == .syncq then "ok" else showOut (addReq P.sh s.q x).2)
@@ -76,41 +90,103 @@ def burstEv (ws : List String) : Bool :=
   | op :: _ => op == "add" || op == "prior" || op == "addc" || op == "priorc" || op == "close" || op == "tryclose"
   | [] => false
 
-/-- a burst of producer events without any resume in between; `none` if one of them is ill-formed or not enabled -/
-def atomicRun (P : Par) : List (List String) → CS → List String → Option (CS × List String)
-  | [], s, acc => some (s, acc.reverse)
-  | ev :: r, s, acc =>
-    if burstEv ev then
-      match producer P s ev with
-      | none => none
-      | some (a, res) => match Nv.C13.step P s a with
-        | none => none
-        | some s' => atomicRun P r s' (res :: acc)
-    else none
+/-- are all events of the line well formed and enabled for this queue type? (does not depend on the state) -/
+def eventsOk (P : Par) (atomic : Bool) : List (List String) → CS → Bool
+  | [], _ => true
+  | ev :: r, s =>
+    (!atomic || burstEv ev) &&
+    match producer P s 0 ev with
+    | none => false
+    | some (a, _) => match Nv.C13.step P { s with parked := [] } a with
+      | none => false
+      | some s' => eventsOk P atomic r s'
 
-def lqLine (P : Par) (s : CS) (next : Nat) (ws : List String) : St × String :=
+/-- a point of the exploration of one line: anonymous state, events still to come, results so far (reversed), results
+    of the consumers that returned so far -/
+structure Cfg1 where
+  a : AS
+  evs : List (List String)
+  res : List String
+  rets : List String
+deriving DecidableEq
+
+def addNew (x : Cfg1) (l : List Cfg1) : List Cfg1 := if l.contains x then l else x :: l
+
+/-- successors of a point: the next event (with every choice a Signal has), or the resume of a woken consumer of
+    either kind — i.e. woken consumers may run before, between and after the events of a burst -/
+def expand (P : Par) (c : Cfg1) : List Cfg1 :=
+  let s := concretize c.a
+  let evSucc : List Cfg1 :=
+    match c.evs with
+    | [] => []
+    | ev :: r =>
+      let ws : List Tid := match firstOfKind false s.parked, firstOfKind true s.parked with
+        | some t1, some t2 => [t1, t2]
+        | some t1, none => [t1]
+        | none, some t2 => [t2]
+        | none, none => [0]
+      ws.filterMap fun w =>
+        match producer P s w ev with
+        | none => none
+        | some (act, r1) => match Nv.C13.step P s act with
+          | none => none
+          | some s' => some ⟨abstractS s', r, r1 :: c.res, sortS (c.rets ++ s'.done.map (fun d => showOut d.2))⟩
+  let rsSucc : List Cfg1 :=
+    ([firstOfKind false s.woken, firstOfKind true s.woken].filterMap id).filterMap fun t =>
+      match Nv.C13.step P s (.resume t) with
+      | none => none
+      | some s' => some ⟨abstractS s', c.evs, c.res, sortS (c.rets ++ s'.done.map (fun d => showOut d.2))⟩
+  evSucc ++ rsSucc
+
+def isTerminal (c : Cfg1) : Bool := c.evs.isEmpty && c.a.wp == 0 && c.a.wa == 0
+
+/-- breadth-first exploration with de-duplication; every step consumes an event or a woken consumer, so it ends -/
+def explore (P : Par) : Nat → List Cfg1 → List Cfg1 → List Cfg1
+  | 0, _, done => done
+  | n + 1, frontier, done =>
+    match frontier with
+    | [] => done
+    | _ =>
+      let term := frontier.filter isTerminal
+      let rest := frontier.filter (fun c => !isTerminal c)
+      let next := (rest.flatMap (expand P)).foldr addNew []
+      explore P n next (term.foldr addNew done)
+
+def outOf (c : Cfg1) : String := ";".intercalate c.res.reverse ++ suffix c.rets (c.a.pp + c.a.pa)
+
+def dedupS (l : List String) : List String := l.foldr (fun x acc => if acc.contains x then acc else x :: acc) []
+def dedupA (l : List AS) : List AS := l.foldr (fun x acc => if acc.contains x then acc else x :: acc) []
+
+/-- one answer line: a single outcome, or the set `{a|b|…}` of outcomes the transition system allows -/
+def showSet (outs : List String) : String :=
+  match sortS (dedupS outs) with
+  | [o] => o
+  | os => "{" ++ "|".intercalate os ++ "}"
+
+def lqLine (P : Par) (ss : List AS) (ws : List String) : St × String :=
   match ws with
   | ["pop"] | ["popany"] =>
     let anyway := ws == ["popany"]
-    match Nv.C13.step P s (.popCall next anyway) with
-    | none => (.lq P s next, "bad-op")
-    | some s1 =>
-      let r := match s1.done with
-        | (t, o) :: _ => if t == next then "ret:" ++ showOut o else "parked"
-        | [] => "parked"
-      (.lq P s1 (next + 1), r ++ suffix [] s1.parked.length)
-  | "atomic" :: rest =>
-    -- producer events executed back to back: no woken consumer resumes in between (the runner holds them back)
-    match atomicRun P (splitSemi rest []) s [] with
-    | none => (.lq P s next, "bad-op")
-    | some (s1, rs) =>
-      let s2 := settle P s1.woken.length s1
-      let newDone := s2.done.take (s2.done.length - s.done.length)
-      (.lq P s2 next, ";".intercalate rs ++ suffix (newDone.map (fun d => showOut d.2)) s2.parked.length)
+    if anyway && P.kind == .syncq then (.lq P ss, "bad-op") else
+    let rs := ss.map fun a =>
+      let s := concretize a
+      match Nv.C13.step P s (.popCall 999 anyway) with
+      | none => (a, "bad-op")
+      | some s1 =>
+        let r := match s1.done with
+          | (_, o) :: _ => "ret:" ++ showOut o
+          | [] => "parked"
+        (abstractS s1, r ++ suffix [] s1.parked.length)
+    (.lq P (dedupA (rs.map (·.1))), showSet (rs.map (·.2)))
   | _ =>
-    match producer P s ws with
-    | some (a, res) => lqEvent P s next a res
-    | none => (.lq P s next, "bad-op")
+    let atomic := ws.head? == some "atomic"
+    let evs := if atomic then splitSemi (ws.drop 1) [] else [ws]
+    match ss with
+    | [] => (.lq P ss, "bad-op")
+    | a0 :: _ =>
+      if !eventsOk P atomic evs (concretize a0) then (.lq P ss, "bad-op") else
+      let finals := explore P 400 (ss.map fun a => ⟨a, evs, [], []⟩) []
+      (.lq P (dedupA (finals.map (·.a))), showSet (finals.map outOf))
 
 /-! priq -/
 
@@ -171,19 +247,19 @@ def pqLine (s : PS) (w : Nat) (ws : List String) : St × String :=
 def step (st : St) (line : String) : St × String :=
   match words line with
   | ["new", "mq", a, b] => match parseInt? a, parseInt? b with
-    | some a, some b => (.lq (mkPar .mq) (CS.init (LQ.new .mq a b)) 1, "ok")
+    | some a, some b => (.lq (mkPar .mq) [⟨LQ.new .mq a b, 0, 0, 0, 0⟩], "ok")
     | _, _ => (.none, "bad-op")
-  | ["new", "syncq"] => (.lq (mkPar .syncq) (CS.init (LQ.new .syncq 0 0)) 1, "ok")
+  | ["new", "syncq"] => (.lq (mkPar .syncq) [⟨LQ.new .syncq 0 0, 0, 0, 0, 0⟩], "ok")
   | ["new", "priq", a] => match parseInt? a with
     | some a => (.pq (PS.init a) 0, "ok")
     | none => (.none, "bad-op")
   | ["new", k, a] => match parseKind k, parseInt? a with
-    | some k, some a => (.lq (mkPar k) (CS.init (LQ.new k 0 a)) 1, "ok")
+    | some k, some a => (.lq (mkPar k) [⟨LQ.new k 0 a, 0, 0, 0, 0⟩], "ok")
     | _, _ => (.none, "bad-op")
   | "new" :: _ => (.none, "bad-op")
   | ws => match st with
     | .none => (st, "bad-op")
-    | .lq P s next => lqLine P s next ws
+    | .lq P ss => lqLine P ss ws
     | .pq s w => pqLine s w ws
 
 def main : IO Unit := oracleMain step St.none
